@@ -85,8 +85,10 @@ def run_duplex(cfg):
     info = dict(deadlock=False, results={}, got=bytearray(), sent_plain=bytearray())
 
     def frags(avail):
+        if not cfg.get("frag_hs", 1) and "t" not in info:
+            return avail                      # fragmentation starts after the handshake
         if frag == -1:
-            return rng.choice([1, 2, 3, 5, 7, 64, 500, 5000, 20000])
+            return rng.choice([1, 2, 3, 5, 7, 64, 500, 5000, 20000] if avail < 400 else [64, 500, 5000, 20000, 3, 100])
         return frag
 
     async def main():
@@ -190,8 +192,7 @@ def run_duplex(cfg):
             obs.append([ev[1], 3, 0])
         elif k == "weof":
             obs.append([ev[1], 4, 0])
-        elif k == "close":
-            obs.append([ev[1], 5, 0])
+        # "close" (aclose_forcefully after a failed handshake) belongs to wrap()/aclose(), modelled in C09's op layer
         elif k == "cancel":
             labels.append([1, ev[1], 2, 4, 0])
     results = [info["results"].get(i, [9, 9]) for i in range(nops)]
@@ -239,13 +240,14 @@ def check_run(cfg, rec, peer, info, events):
 def _cfg_sx(cfg):
     return [cfg["ver"], int(cfg["client"]), [list(w) if isinstance(w, (list, tuple)) else [w] for w in cfg["writes"]],
             list(cfg["peer_writes"]), cfg["frag"], cfg["yields"], cfg["seed"], cfg["recv_size"], int(cfg.get("into", 0)),
-            -1 if cfg.get("fail_send_at") is None else cfg["fail_send_at"]]
+            -1 if cfg.get("fail_send_at") is None else cfg["fail_send_at"], int(cfg.get("frag_hs", 1))]
 
 
 def _sx_cfg(f):
     f = list(f)
     return dict(ver=f[0], client=f[1], writes=[w[0] if len(w) == 1 else list(w) for w in f[2]], peer_writes=list(f[3]),
-                frag=f[4], yields=f[5], seed=f[6], recv_size=f[7], into=f[8], fail_send_at=None if f[9] < 0 else f[9])
+                frag=f[4], yields=f[5], seed=f[6], recv_size=f[7], into=f[8], fail_send_at=None if f[9] < 0 else f[9],
+                frag_hs=f[10] if len(f) > 10 else 1)
 
 
 def _build(cfg):
@@ -293,20 +295,55 @@ SIZES_BIG = [16383, 16384, 16385, 32768, 49152]
 
 
 def cases(tier, rng, escalate):
+    """All cases, ordered so that every block of 400 (one coqc shard) carries a similar share of the long traces."""
     thorough = tier == "thorough" or escalate
+    cap = 12000 if thorough else 2500          # labels per case (longer traces are left to the other families)
+    allc = [c for c in _gen(thorough, rng) if len(c["input"][0]) <= cap]
+    allc.sort(key=lambda c: -len(c["input"][0]))
+    nb = max(1, -(-len(allc) // 400))
+    buckets = [allc[b::nb] for b in range(nb)]
+    out = []
+    for b in buckets:
+        rng.shuffle(b)
+    # blocks must be exactly 400 long (except the last) for the shard boundaries to fall between buckets
+    flat = [c for b in buckets for c in b]
+    sizes = [len(b) for b in buckets]
+    if len(set(sizes[:-1])) <= 1 and all(x == 400 for x in sizes[:-1]):
+        return flat
+    # uneven: deal round-robin so that any window of 400 is a fair sample
+    out = []
+    for i in range(max(sizes)):
+        for b in buckets:
+            if i < len(b):
+                out.append(b[i])
+    return out
+
+
+def _gen(thorough, rng):
     seed = rng.randrange(1 << 30)
     n = 0
     for ver in (13, 12):
         for client in (1, 0):
+            # small scope, enumerated: tiny writes both ways x fragmentation after the handshake x suspension budgets
+            for writes in ([1], [2], [1, 1], [[1, 2]]):
+                for peer_writes in ([1], [3], [2, 2]):
+                    for frag in (0, 1, 2):
+                        for yields in (0, 1, 2, 3):
+                            for rep in range(2 if thorough else 1):
+                                n += 1
+                                cfg = dict(ver=ver, client=client, writes=writes, peer_writes=peer_writes, frag=frag,
+                                           yields=yields, seed=seed + n, recv_size=1 + (n % 3), into=n % 2, frag_hs=0)
+                                yield _case(cfg, ["small-scope"])
             # every write size, alone, every fragmentation that is affordable for it
             for size in SIZES_SMALL + SIZES_BIG:
-                for frag in ((0, 1, 2, 7, -1) if size <= 1000 else (0, 7, -1) if thorough else (0, -1)):
+                small = size <= 1000 and (thorough or not client or size <= 7)
+                for frag in ((0, 1, 2, 7, -1) if small else (0, 7, -1) if thorough or size <= 1000 else (0, -1)):
                     n += 1
                     cfg = dict(ver=ver, client=client, writes=[size], peer_writes=[size if size <= 1000 else 3000], frag=frag,
                                yields=2, seed=seed + n, recv_size=rng.choice([1, 10, 100, 4096, 65536]), into=n % 2)
                     yield _case(cfg, ["single-write"])
             # several calls each way, full duplex, seeded interleavings
-            for k in range(24 if thorough else 8):
+            for k in range(120 if thorough else 40):
                 n += 1
                 writes = [rng.choice(SIZES_SMALL + [rng.randint(1, 3000)]) for _ in range(rng.randint(1, 5))]
                 if rng.random() < 0.3:
@@ -318,9 +355,9 @@ def cases(tier, rng, escalate):
                     peer_writes.append(rng.choice(SIZES_BIG))
                 big = sum(peer_writes) > 5000
                 cfg = dict(ver=ver, client=client, writes=writes, peer_writes=peer_writes,
-                           frag=rng.choice([0, 7, -1] if big else [0, 1, 2, 7, -1]), yields=rng.choice([0, 1, 2, 4]),
+                           frag=rng.choice([0, 7, -1] if big or (client and not thorough) else [0, 1, 2, 7, -1]), yields=rng.choice([0, 1, 2, 4]),
                            seed=seed + n, recv_size=rng.choice([1, 3, 64, 1000, 16384, 65536]) if not big else rng.choice([1000, 16384, 65536]),
-                           into=rng.randint(0, 1))
+                           into=rng.randint(0, 1), frag_hs=int(thorough or k % 4 == 0))
                 yield _case(cfg, ["full-duplex"])
             # a send_all of the wrapped transport fails (during the handshake or later)
             for at in (0, 1, 2, 3):
